@@ -176,6 +176,8 @@ func selfBounded(fn *ssa.Function) bool {
 }
 
 func runC05(c *Ctx, r *Report) {
+	importFoundation(c, r, "C05", "callbacks")
+	importFoundation(c, r, "C05", "open-cleanup")
 	importFoundation(c, r, "C05", "priv-steps")
 	r.Rule("C05/options", "the per-operation timeout option stores exactly the duration it is given (zero and negative values included: 0 means maximum, -1 the connection-wide value) into the channel / NETCONF operation options", 2)
 	{
